@@ -832,10 +832,8 @@ def handed_over_and_withdrawn(case):
     if outcome[0] != 'ok':
         violations.append({'mechanism': 'internal-error:%s' % type(outcome[1]).__name__,
                            'case': dict(case), 'msg': '%s: run() ended with %r' % (what, outcome[1])})
-    elif not left or left[0] < child_ends or (not accepted and left[0] != child_ends) \
-            or (accepted and withdraw.startswith('cancel') and left[0] != max(
-                child_ends, hand_over_at)) \
-            or (accepted and withdraw == 'keep' and left[0] != hand_over_at + 0.5):
+    elif not left or left[0] != (max(child_ends, hand_over_at + 0.5)
+                                 if accepted and withdraw == 'keep' else child_ends):
         violations.append({'mechanism': 'large-program-wrong-outcome', 'case': dict(case),
                            'msg': '%s: logged %s' % (what, log)})
     try:
